@@ -550,7 +550,10 @@ impl Check for C11 {
 
     fn replay(&self, case: &J, mut log: Option<&mut Vec<String>>) -> Result<Option<(String, String)>, String> {
         let (d, tape) = crate::c01::parse_case(case)?;
-        // first what the receive buffer held before (parsed there as the earlier delivery was)
+        // a replay starts from a fixed history, in this process as in a fresh one: a neutral
+        // delivery (whatever the code under test remembers of earlier calls now concerns that
+        // one), then what the receive buffer held before (parsed there as the earlier delivery was)
+        let _ = judge(&[0x80, 203, 0, 0], &mut Tape::canonical(), &mut None);
         if let Ok(prev) = case.str_of("previous").and_then(|h| unhex(h)) {
             if !prev.is_empty() {
                 let _ = judge(&prev, &mut Tape::canonical(), &mut None);
